@@ -184,6 +184,8 @@ class Restraint(Residue):
         if self.shx.defs:  # and self.shx.defs.active:
             if self.name == 'DFIX':
                 self.s = self.shx.defs.sd
+            if self.name == 'DANG':
+                self.s = self.shx.defs.sd * 2
             if self.name == 'SAME':
                 self.s1 = self.shx.defs.sd
                 self.s2 = self.shx.defs.sd * 2
